@@ -11,6 +11,8 @@ func init() {
 	register("C12", func(c *core.Ctx, tier string) {
 		c12CloseWaitsForBuffer(c)
 		c12Shutdown(c)
+		casPolarity(c, "C12.1b")
+		c08UpgradeBranchWiring(c, "C12.1c") // a closing session is closed on the new transport after an upgrade; clearTransport closes the old one
 		c11ReleaseAtClose(c, "C12.3")
 		c12TeardownOrdering(c)
 		c12CallbackBeforeTeardown(c)
